@@ -2,7 +2,7 @@
 # seedcheck.sh <name e.g. C13-a> <property id> [extra verif args]
 # Confirms a seeded property-breaking change (from /tmp/wt/out/<name>) and runs the check against it.
 name=$1; prop=$2; shift 2
-src=/tmp/wt/out/$name
+src=${SEEDSRC:-/tmp/wt/out3}/$name
 work=/tmp/seedwork/$name
 export GOFLAGS=-mod=mod GOPROXY=off GOSUMDB=off GOTOOLCHAIN=local
 rm -rf $work; mkdir -p $work/repo $work/clean
